@@ -322,7 +322,10 @@ def r4_1(ctx, R, otypes):
         if ctr in incoming:
             kinds["back"] = kinds.get("back", 0) + 1
             inc_sites = [x for x, c in adds if c == ctr]
-            other = [x for x, c in adds + subs if c is not None and c != ctr] + [x for x, c in subs if c == ctr] + [x for x, c in others_]
+            undo = [x for x, c in subs if c == ctr]
+            if undo and compensated_on_refusal(ctx, b, fl, set(inc_sites), set(undo)):
+                undo = []          # reserved before the queue is asked, handed back when it refuses: net effect only on acceptance
+            other = [x for x, c in adds + subs if c is not None and c != ctr] + undo + [x for x, c in others_]
             once = bool(paths) and all(sum(1 for y in p if y in inc_sites) == 1 for p in paths)
             # read before increment: no increment site strictly dominates the read
             before = not any(b.dominates(x, read_bb) and x != read_bb for x in inc_sites) and idx_off == 0
@@ -332,7 +335,10 @@ def r4_1(ctx, R, otypes):
         else:
             kinds["front"] = kinds.get("front", 0) + 1
             dec_sites = [x for x, c in subs if c == ctr]
-            other = [x for x, c in adds + subs if c is not None and c != ctr] + [x for x, c in adds if c == ctr] + [x for x, c in others_]
+            undo = [x for x, c in adds if c == ctr]
+            if undo and compensated_on_refusal(ctx, b, fl, set(dec_sites), set(undo)):
+                undo = []
+            other = [x for x, c in adds + subs if c is not None and c != ctr] + undo + [x for x, c in others_]
             once = bool(paths) and all(sum(1 for y in p if y in dec_sites) == 1 for p in paths)
             if idx_off == -1:
                 # index = counter.wrapping_sub(1) computed from the value BEFORE the (single) decrement that stores it back
@@ -428,6 +434,30 @@ def r4_1(ctx, R, otypes):
                                         inc_ok = True
                     ctx.ob("R4.1", b, "from_iter:incoming=count,outgoing=0", bool(zero) and inc_ok, b.loc(rb),
                            "outgoing=%s incoming=%s" % (expr_str(ops[o]) if o else None, expr_str(ops[i]) if i else None))
+
+
+def compensated_on_refusal(ctx, b, fl, step_sites, undo_sites):
+    """A reserve-then-roll-back discipline: the counter is stepped before the queue is asked, and a refusal undoes the step.  On
+    every feasible return path that passes an undo site the function returns `Err(..)` (the refusal) and the path's updates
+    of the counter are exactly [step, undo] in that order; every other path has no undo.  With `Wrapping` arithmetic the pair is
+    the identity, so the net effect is the same as stepping on acceptance only."""
+    from lib_flow import sensitive_paths, path_const_feasible, PathEval
+    n = 0
+    try:
+        for kind, path, know in sensitive_paths(b, fl, 2):
+            if kind != "return" or not any(x in undo_sites for x in path):
+                continue
+            if not path_const_feasible(b, path):
+                continue
+            n += 1
+            seq = ["s" if x in step_sites else "u" for x in path if x in step_sites or x in undo_sites]
+            r = PathEval(b, path).local_expr(0)
+            refusing = r[0] == "agg" and r[1].endswith("Result::Err")
+            if not (refusing and seq == ["s", "u"]):
+                return False
+    except RuntimeError:
+        return False
+    return n > 0
 
 
 def _explicit_counter_step(ctx, b, fl, agg_bb, paths):
@@ -919,7 +949,18 @@ def _entry_kind(ctx, b, fl, dst, heap_field):
                     if r_[0] == "call" and (r_[1] or "").endswith("::iter_mut") and "PinSlotMap" in r_[1]:
                         recv = strip_refs(r_[2][0])
                         inner_ok = recv[0] == "proj" and recv[2][-1] == ".tasks" and strip_refs(recv[1]) == ("param", 2)
-            if any("FlatMap" in n_ and n_.endswith("::next") for n_ in names):
+            # the element comes straight from that chain's own `next` (FlatMap's, or the generic `<I as Iterator>::next` of a
+            # helper the chain was handed to as `impl Iterator`)
+            d0 = strip_refs(dst)
+            direct_next = False
+            for c2 in calls:
+                if (c2[1] or "").endswith("::next") and c2[2]:
+                    src2 = strip_refs(c2[2][0])
+                    while src2[0] == "call" and re.search(r"IntoIterator(>| for .*>)?::into_iter$", src2[1] or "") and src2[2]:
+                        src2 = strip_refs(src2[2][0])
+                    if src2 == c:
+                        direct_next = True
+            if any("FlatMap" in n_ and n_.endswith("::next") for n_ in names) or direct_next:
                 return "live-task" if (plain and inner_ok) else "live-task(partial-groups)"
     return "other:" + expr_str(dst)[:60]
 
